@@ -60,7 +60,7 @@ package heap
 //@   requires wf(pq) && typeis(x, *Item) && unbox(x, *Item) != nil
 //@   requires fresh-name: !has(pq, unbox(x, *Item).name)
 //@   requires not-queued: forall k int :: 0 <= k && k < len(pq.queue) ==> pq.queue[k] != unbox(x, *Item)
-//@   modifies pq.queue, mapof(pq.names), unbox(x, *Item).index
+//@   modifies pq.queue, elems(pq.queue), mapof(pq.names), unbox(x, *Item).index
 //@   ensures [C01] keeps-wf: wf(pq)
 //@   ensures [C01] appended: len(pq.queue) == old(len(pq.queue)) + 1 && pq.queue[len(pq.queue)-1] == unbox(x, *Item)
 //@   ensures [C01] prefix-untouched: forall k int :: 0 <= k && k < old(len(pq.queue)) ==> pq.queue[k] == old(pq.queue[k])
